@@ -42,6 +42,8 @@ enum Tok {
     D,
     G(usize),
     S(usize),
+    /// allocate N zero-initialised bytes (`vec![0u8; n]`: `GlobalAlloc::alloc_zeroed`)
+    Z(usize),
     /// keep the top buffer for the call that gets this input (no allocator operation)
     K,
     /// take the oldest kept buffer (no allocator operation)
@@ -101,6 +103,13 @@ fn run_script(toks: &[Tok]) {
                 stack[sp] = Some(vec);
                 sp += 1;
             }
+            Tok::Z(n) => {
+                let mut vec = vec![0u8; std::hint::black_box(n)];
+                std::hint::black_box(vec.as_mut_ptr());
+                vec.clear(); // length 0, capacity n: resized and freed like the others
+                stack[sp] = Some(vec);
+                sp += 1;
+            }
             Tok::D => {
                 sp -= 1;
                 let vec = stack[sp].take();
@@ -149,6 +158,7 @@ fn parse_script(s: &str) -> Vec<Tok> {
                 "d" => Tok::D,
                 "g" => Tok::G(n.parse().expect("g")),
                 "s" => Tok::S(n.parse().expect("s")),
+                "z" => Tok::Z(n.parse().expect("z")),
                 "k" => Tok::K,
                 "t" => Tok::T,
                 _ => panic!("bad script token {t}"),
